@@ -272,7 +272,8 @@ func (pConn *PFCPConn) doShutdown() {
 func (pConn *PFCPConn) getSeqNum() uint32 {
 	pConn.seqNum.mux.Lock()
 	defer pConn.seqNum.mux.Unlock()
-	pConn.seqNum.seq++
+	// PFCP sequence numbers are 24 bits wide
+	pConn.seqNum.seq = (pConn.seqNum.seq + 1) & 0xFFFFFF
 
 	return pConn.seqNum.seq
 }
